@@ -1,5 +1,6 @@
 import BFL.Model.KF
 import BFL.Model.KFLik
+import BFL.Model.KFHist
 import BFL.Bridge.Mat
 import BFL.Proofs.KF
 import BFL.Props.C15
@@ -219,5 +220,284 @@ example : ∃ (P R : Mat ℝ 1 1), (toM P).PosDef ∧ (toM R).PosDef := by
   · have : toM (Mat.of (fun _ _ => 3) : Mat ℝ 1 1) = (3 : ℝ) • (1 : Matrix (Fin 1) (Fin 1) ℝ) := by
       ext i j; simp [toM, Subsingleton.elim i j]
     rw [this]; exact Matrix.PosDef.one.smul (by norm_num)
+
+
+/-! ## Histories: the composition a `GaussianFilter` runs (`Model/KFHist.lean`) -/
+
+variable {n k : Nat}
+
+/-- admissible step: PSD process noise (singular allowed), PD measurement noise -/
+def KFHStep.OK (s : KFHStep ℝ n) : Prop :=
+  (toM s.Q).PosSemidef ∧ ∀ z, s.meas = some z → (toM z.R).PosDef
+
+/-- contract of the inverse routine: it inverts what is invertible -/
+def InvAll (inv : (m : Nat) → Mat ℝ m m → Mat ℝ m m) : Prop :=
+  ∀ (m : Nat) (S : Mat ℝ m m), IsUnit (toM S) → InvOn (inv m) S
+
+/-- all covariances of a belief PSD -/
+def GM.PSD (b : GM ℝ n k) : Prop := ∀ i, (toM (b.cov i)).PosSemidef
+
+theorem kfGaussPredict_psd (s : KFHStep ℝ n) (hs : s.OK) (prev out : GM ℝ n k) (h : prev.PSD) :
+    (kfGaussPredict s prev out).PSD := by
+  unfold kfGaussPredict
+  split
+  · exact h
+  · split
+    · exact h
+    · intro i
+      have e : toM ((kfPredict s.F s.Q s.effExo prev out).cov i) = toM s.F * toM (prev.cov i) * (toM s.F)ᵀ + toM s.Q := by
+        simp [kfPredict, kfPredictCov]
+      rw [e]
+      have := (h i).mul_mul_conjTranspose_same (toM s.F)
+      simpa using this.add hs.1
+
+theorem kfGaussCorrect_psd (inv : (m : Nat) → Mat ℝ m m → Mat ℝ m m) (hinv : InvAll inv)
+    (s : KFHStep ℝ n) (hs : s.OK) (pred out : GM ℝ n k) (h : pred.PSD) :
+    (kfGaussCorrect inv s pred out).PSD := by
+  unfold kfGaussCorrect
+  split
+  · exact h
+  · split
+    · exact h
+    · rename_i z hz
+      intro i
+      have hR := hs.2 z hz
+      exact kf_cov_posSemidef (inv z.m) z.H (pred.cov i) z.R (h i) hR
+        (hinv z.m _ (kf_S_posDef z.H (pred.cov i) z.R (h i) hR).2)
+
+/-- **History invariant.**  -/
+theorem kf_filter_invariant (inv : (m : Nat) → Mat ℝ m m → Mat ℝ m m) (hinv : InvAll inv)
+    (steps : List (KFHStep ℝ n)) (hsteps : ∀ s ∈ steps, s.OK)
+    (st0 : KFFilter ℝ n k) (h0 : st0.corr.PSD) :
+    ∀ st ∈ kfFilterTrace inv st0 steps, ∀ i,
+      (toM (st.pred.cov i)).PosSemidef ∧ (toM (st.pred.cov i))ᵀ = toM (st.pred.cov i) ∧
+      (toM (st.corr.cov i)).PosSemidef ∧ (toM (st.corr.cov i))ᵀ = toM (st.corr.cov i) := by
+  induction steps generalizing st0 with
+  | nil => intro st hst; simp [kfFilterTrace] at hst
+  | cons s rest ih =>
+    have hs : s.OK := hsteps s (by simp)
+    have hp : (kfFilterStep inv st0 s).pred.PSD := kfGaussPredict_psd s hs _ _ h0
+    have hc : (kfFilterStep inv st0 s).corr.PSD := kfGaussCorrect_psd inv hinv s hs _ _ hp
+    intro st hst
+    simp only [kfFilterTrace, List.mem_cons] at hst
+    rcases hst with rfl | hst
+    · intro i
+      exact ⟨hp i, by simpa using (hp i).1.eq, hc i, by simpa using (hc i).1.eq⟩
+    · exact ih (fun s' hs' => hsteps s' (by simp [hs'])) _ hc st hst
+
+/-! ### the exact linear-Gaussian Bayes filter (information form) -/
+
+/-- the statistics of one component: mean and covariance -/
+abbrev Stat (n : Nat) := (Fin n → ℝ) × Matrix (Fin n) (Fin n) ℝ
+
+/-- time update of the exact filter: `m ↦ F m + u`, `P ↦ F P Fᵀ + Q`, unless the prediction is skipped -/
+noncomputable def bayesPredict (s : KFHStep ℝ n) (x : Stat n) : Stat n :=
+  if s.skipPred || s.skipState then x
+  else (toM s.F *ᵥ x.1 + (match s.effExo with | none => 0 | some g => toV (g (Vec.of x.1))),
+        toM s.F * x.2 * (toM s.F)ᵀ + toM s.Q)
+
+/-- measurement update of the exact filter in information form:
+    `P⁺ = (P⁻¹ + HᵀR⁻¹H)⁻¹`, `m⁺ = P⁺ (P⁻¹ m + HᵀR⁻¹ y)`; nothing without a measurement -/
+noncomputable def bayesUpdate (s : KFHStep ℝ n) (x : Stat n) : Stat n :=
+  if s.skipCorr then x
+  else match s.meas with
+    | none => x
+    | some z =>
+      ((x.2⁻¹ + (toM z.H)ᵀ * (toM z.R)⁻¹ * toM z.H)⁻¹ *ᵥ (x.2⁻¹ *ᵥ x.1 + ((toM z.H)ᵀ * (toM z.R)⁻¹) *ᵥ toV z.y),
+       (x.2⁻¹ + (toM z.H)ᵀ * (toM z.R)⁻¹ * toM z.H)⁻¹)
+
+noncomputable def bayesStep (x : Stat n) (s : KFHStep ℝ n) : Stat n := bayesUpdate s (bayesPredict s x)
+
+/-- the statistics of component `i` of a belief -/
+noncomputable def GM.stat (b : GM ℝ n k) (i : Fin k) : Stat n := (toV (b.mean i), toM (b.cov i))
+
+/-- Guard of the information form: the predicted covariance must be invertible.  Sufficient, per step:
+    PD process noise, or PSD process noise with an invertible `F` (or a skipped prediction). -/
+def KFHStep.StrictOK (s : KFHStep ℝ n) : Prop :=
+  ((s.skipPred || s.skipState) = true ∨ (toM s.Q).PosDef ∨ ((toM s.Q).PosSemidef ∧ IsUnit (toM s.F))) ∧
+  ∀ z, s.meas = some z → (toM z.R).PosDef
+
+theorem Vec.of_toV (v : Vec ℝ n) : Vec.of (toV v) = v := rfl
+
+theorem kfGaussPredict_stat (s : KFHStep ℝ n) (prev out : GM ℝ n k) (i : Fin k) :
+    (kfGaussPredict s prev out).stat i = bayesPredict s (prev.stat i) := by
+  unfold kfGaussPredict bayesPredict
+  by_cases h1 : s.skipPred
+  · simp [h1]
+  · by_cases h2 : s.skipState
+    · simp [h2]
+    · simp only [h1, h2, Bool.false_eq_true, if_false, Bool.or_self]
+      unfold GM.stat
+      ext : 1
+      · cases hE : s.effExo <;> simp [kfPredict, propagateMean, Vec.of_toV]
+      · simp [kfPredict, kfPredictCov]
+
+theorem bayesPredict_posDef (s : KFHStep ℝ n) (hs : s.StrictOK) (x : Stat n) (hx : x.2.PosDef) :
+    (bayesPredict s x).2.PosDef := by
+  unfold bayesPredict
+  by_cases h : (s.skipPred || s.skipState) = true
+  · simp only [h, if_true]; exact hx
+  · simp only [h]
+    rcases hs.1 with h' | hQ | ⟨hQ, hF⟩
+    · exact absurd h' h
+    · exact KFProofs.pred_posDef_of_Q _ hx.posSemidef hQ
+    · exact KFProofs.pred_posDef_of_F _ hx hQ hF
+
+theorem kfGaussCorrect_stat (inv : (m : Nat) → Mat ℝ m m → Mat ℝ m m) (hinv : InvAll inv)
+    (s : KFHStep ℝ n) (hs : s.StrictOK) (pred out : GM ℝ n k) (i : Fin k) (hP : (toM (pred.cov i)).PosDef) :
+    (kfGaussCorrect inv s pred out).stat i = bayesUpdate s (pred.stat i) ∧
+    (toM ((kfGaussCorrect inv s pred out).cov i)).PosDef := by
+  unfold kfGaussCorrect bayesUpdate
+  by_cases h1 : s.skipCorr
+  · simp [h1, hP]
+  · simp only [h1, Bool.false_eq_true, if_false]
+    cases hz : s.meas with
+    | none => simp [hP]
+    | some z =>
+      have hR := hs.2 z hz
+      have hi := hinv z.m _ (kf_S_posDef z.H (pred.cov i) z.R hP.posSemidef hR).2
+      simp only
+      refine ⟨?_, ?_⟩
+      · unfold GM.stat
+        ext : 1
+        · exact kf_mean_information (inv z.m) z.H (pred.cov i) z.R z.y (pred.mean i) hP hR hi
+        · exact (kf_cov_information (inv z.m) z.H (pred.cov i) z.R hP hR hi).1
+      · show (toM (kfCorrectCov (inv z.m) z.H z.R (pred.cov i))).PosDef
+        rw [toM_kfCorrectCov (inv z.m) z.H (pred.cov i) z.R hi]
+        exact KFProofs.Cov_posDef _ hP hR
+
+/-- **The n-step posterior is the recursion of the exact linear-Gaussian Bayes filter.** -/
+theorem kf_filter_bayes (inv : (m : Nat) → Mat ℝ m m → Mat ℝ m m) (hinv : InvAll inv)
+    (steps : List (KFHStep ℝ n)) (hsteps : ∀ s ∈ steps, s.StrictOK)
+    (st0 : KFFilter ℝ n k) (i : Fin k) (h0 : (toM (st0.corr.cov i)).PosDef) :
+    (kfFilterRun inv st0 steps).corr.stat i = steps.foldl bayesStep (st0.corr.stat i) ∧
+    (toM ((kfFilterRun inv st0 steps).corr.cov i)).PosDef := by
+  induction steps generalizing st0 with
+  | nil => exact ⟨rfl, h0⟩
+  | cons s rest ih =>
+    have hs := hsteps s (by simp)
+    have e1 := kfGaussPredict_stat s st0.corr st0.pred i
+    have hp : (toM ((kfGaussPredict s st0.corr st0.pred).cov i)).PosDef := by
+      have := bayesPredict_posDef s hs (st0.corr.stat i) h0
+      rw [← e1] at this; exact this
+    obtain ⟨e2, hc⟩ := kfGaussCorrect_stat inv hinv s hs (kfGaussPredict s st0.corr st0.pred) st0.corr i hp
+    have hstep : (kfFilterStep inv st0 s).corr.stat i = bayesStep (st0.corr.stat i) s := by
+      unfold bayesStep; rw [← e1]; exact e2
+    have := ih (fun s' hs' => hsteps s' (by simp [hs'])) (kfFilterStep inv st0 s) hc
+    simp only [kfFilterRun, List.foldl_cons] at this ⊢
+    rw [← hstep]; exact this
+
+/-- the step did hand a measurement to `correctStep` -/
+def KFHStep.corrects (s : KFHStep ℝ n) : Bool := !s.skipCorr && s.meas.isSome
+
+/-- **A step without measurement (or with the correction skipped) leaves the predicted belief**:
+    whatever the history before it, the corrected belief is the predicted one — means, covariances
+    and weights — and what `getLikelihood()` reports is unchanged. -/
+theorem kf_filter_no_measurement (inv : (m : Nat) → Mat ℝ m m → Mat ℝ m m)
+    (steps : List (KFHStep ℝ n)) (s : KFHStep ℝ n) (hs : s.corrects = false) (st0 : KFFilter ℝ n k) :
+    (kfFilterRun inv st0 (steps ++ [s])).corr = (kfFilterRun inv st0 (steps ++ [s])).pred ∧
+    (kfFilterRun inv st0 (steps ++ [s])).last = (kfFilterRun inv st0 steps).last := by
+  simp only [kfFilterRun, List.foldl_append, List.foldl_cons, List.foldl_nil]
+  generalize steps.foldl (kfFilterStep inv) st0 = st
+  unfold KFHStep.corrects at hs
+  by_cases h1 : s.skipCorr
+  · simp [kfFilterStep, kfGaussCorrect, kfLastAfter, h1]
+  · cases hz : s.meas with
+    | none => simp [kfFilterStep, kfGaussCorrect, kfLastAfter, h1, hz]
+    | some z => simp [h1, hz] at hs
+
+/-- **Component independence across a whole history**: two filters whose corrected beliefs agree in
+    component `i` (whatever the other components, the weights, the predicted beliefs and the
+    remembered likelihood data are) agree in component `i` of the predicted and of the corrected
+    belief after every step of every history. -/
+theorem kf_filter_component_independent (inv : (m : Nat) → Mat ℝ m m → Mat ℝ m m)
+    (steps : List (KFHStep ℝ n)) (st0 st0' : KFFilter ℝ n k) (i : Fin k)
+    (hm : st0.corr.mean i = st0'.corr.mean i) (hc : st0.corr.cov i = st0'.corr.cov i) :
+    List.Forall₂ (fun st st' => st.pred.mean i = st'.pred.mean i ∧ st.pred.cov i = st'.pred.cov i ∧
+        st.corr.mean i = st'.corr.mean i ∧ st.corr.cov i = st'.corr.cov i)
+      (kfFilterTrace inv st0 steps) (kfFilterTrace inv st0' steps) := by
+  induction steps generalizing st0 st0' with
+  | nil => exact List.Forall₂.nil
+  | cons s rest ih =>
+    have hp : (kfGaussPredict s st0.corr st0.pred).mean i = (kfGaussPredict s st0'.corr st0'.pred).mean i ∧
+        (kfGaussPredict s st0.corr st0.pred).cov i = (kfGaussPredict s st0'.corr st0'.pred).cov i := by
+      unfold kfGaussPredict
+      by_cases h1 : s.skipPred <;> by_cases h2 : s.skipState <;> simp [h1, h2, hm, hc, kfPredict]
+    have hcr : (kfFilterStep inv st0 s).corr.mean i = (kfFilterStep inv st0' s).corr.mean i ∧
+        (kfFilterStep inv st0 s).corr.cov i = (kfFilterStep inv st0' s).corr.cov i := by
+      simp only [kfFilterStep, kfGaussCorrect]
+      by_cases h1 : s.skipCorr
+      · simp [h1, hp.1, hp.2]
+      · cases hz : s.meas <;> simp [h1, kfCorrect, hp.1, hp.2]
+    simp only [kfFilterTrace]
+    exact List.Forall₂.cons ⟨hp.1, hp.2, hcr.1, hcr.2⟩ (ih _ _ hcr.1 hcr.2)
+
+/-- **`getLikelihood()` over a history.**  A filter as constructed reports none; after a history it
+    reports one iff some step handed a measurement to `correctStep`; a step that does reports, for
+    every component, the density of its own measurement under the *predicted* belief of that step
+    (by `kf_likelihood_eq`: `N(y; H m_i, H P_i Hᵀ + R)`); a step that does not leaves the report of
+    the history before it (see `kf_filter_no_measurement`). -/
+theorem kf_filter_likelihood (inv : (m : Nat) → Mat ℝ m m → Mat ℝ m m) (invD : InvFn ℝ)
+    (steps : List (KFHStep ℝ n)) (pred0 corr0 : GM ℝ n k) :
+    kfGetLikelihood invD (kfFilterInit pred0 corr0) = none ∧
+    ((kfGetLikelihood invD (kfFilterRun inv (kfFilterInit pred0 corr0) steps)).isSome = steps.any KFHStep.corrects) ∧
+    (∀ (s : KFHStep ℝ n) (z : KFMeas ℝ n), s.skipCorr = false → s.meas = some z → ∀ st0 : KFFilter ℝ n k,
+      kfGetLikelihood invD (kfFilterRun inv st0 (steps ++ [s]))
+        = some (fun i => kfLikelihood invD z.H z.R z.y (kfFilterRun inv st0 (steps ++ [s])).pred i)) := by
+  refine ⟨rfl, ?_, ?_⟩
+  · have gen : ∀ (st0 : KFFilter ℝ n k),
+        (kfFilterRun inv st0 steps).last.isSome = (st0.last.isSome || steps.any KFHStep.corrects) := by
+      induction steps with
+      | nil => intro st0; simp [kfFilterRun]
+      | cons s rest ih =>
+        intro st0
+        have := ih (kfFilterStep inv st0 s)
+        simp only [kfFilterRun, List.foldl_cons] at this ⊢
+        rw [this]
+        simp only [kfFilterStep, kfLastAfter, KFHStep.corrects, List.any_cons]
+        by_cases h1 : s.skipCorr
+        · simp [h1]
+        · cases hz : s.meas <;> simp [h1]
+    have := gen (kfFilterInit pred0 corr0)
+    simpa [kfGetLikelihood, kfFilterInit] using this
+  · intro s z h1 hz st0
+    simp only [kfFilterRun, List.foldl_append, List.foldl_cons, List.foldl_nil]
+    generalize steps.foldl (kfFilterStep inv) st0 = st
+    simp [kfGetLikelihood, kfFilterStep, kfLastAfter, h1, hz]
+
+/-! ### measurement-model plumbing -/
+
+/-- `LinearMeasurementModel::predictedMeasure` followed by `::innovation` on the batch of predicted
+    means and a one-column measurement: column `i` is `y − H m_i`, the innovation the correction uses. -/
+theorem lin_innovation_col {m c : Nat} (H : Mat ℝ m n) (b : GM ℝ n k) (Y : Mat ℝ m (c + 1)) (i : Fin k) :
+    toV (Mat.col (linInnovation (linPredictedMeasure H b.meanBatch) Y) i)
+      = toV (kfInnovation H (Mat.col Y 0) (b.mean i)) := by
+  ext r
+  simp only [toV_apply, Mat.col, Vec.of_apply, linInnovation, Mat.of_apply, linPredictedMeasure, kfInnovation,
+    Vec.sub_apply, Mat.mul_apply, Mat.mulVec_apply, GM.meanBatch, neg_sub]
+
+/-- `LTIMeasurementModel`'s constructor accepts exactly: a non-empty `H`, a square `R` with as many
+    rows as `H`; otherwise it throws, the first failing test in the order of the source deciding. -/
+theorem lti_ctor_ok_iff (hr hc rr rc : Nat) :
+    ltiMeasCtor hr hc rr rc = .ok ↔ (0 < hr ∧ 0 < hc ∧ rr = rc ∧ hr = rr) := by
+  unfold ltiMeasCtor
+  by_cases h1 : hr = 0 <;> by_cases h2 : hc = 0 <;> by_cases h3 : rr = 0 <;> by_cases h4 : rc = 0 <;>
+    by_cases h5 : rr = rc <;> by_cases h6 : hr = rr <;> simp [h1, h2, h3, h4, h5, h6] <;> omega
+
+/-- Non-vacuity of the history theorems: Mathlib's inverse meets `InvAll`; a step with `Q = R = 1`,
+    `H = 1`, a measurement and nothing skipped is `OK`, `StrictOK` and does correct. -/
+theorem invAll_mathlib : InvAll (fun _ S => Mat.of (fun i j => ((toM S)⁻¹) i j)) := by
+  intro m S hu
+  unfold InvOn
+  show toM S * (toM S)⁻¹ = 1
+  exact Matrix.mul_nonsing_inv _ ((Matrix.isUnit_iff_isUnit_det _).1 hu)
+
+example : ∃ s : KFHStep ℝ 2, s.OK ∧ s.StrictOK ∧ s.corrects = true := by
+  refine ⟨{ F := Mat.one, Q := Mat.one, exo := none, skipPred := false, skipState := false, skipExo := false,
+            meas := some { m := 2, H := Mat.one, R := Mat.one, y := Vec.zero }, skipCorr := false }, ?_, ?_, rfl⟩
+  · refine ⟨by rw [toM_one]; exact Matrix.PosSemidef.one, ?_⟩
+    intro z hz; cases hz; rw [toM_one]; exact Matrix.PosDef.one
+  · refine ⟨Or.inr (Or.inl (by rw [toM_one]; exact Matrix.PosDef.one)), ?_⟩
+    intro z hz; cases hz; rw [toM_one]; exact Matrix.PosDef.one
 
 end BFL
